@@ -208,6 +208,13 @@ def check_receive(c, w, rec, stream, tags, auto_pong=True, sock_id=0, bytewise_f
                 'exception escaped the event iterator: %r' % (rec.exc,))
         return cls, ob
     if rec.budget is not None:
+        sc = w.socks[sock_id].script if sock_id < len(w.socks) else None
+        if ob.on('C18') and sc is not None and sc.items is not None and (sc.remaining() > 0 or sc.end in ('eof', 'error')):
+            # the loop went on waiting (poll timeout after poll timeout) although bytes - or the end of the stream - had been
+            # available to the client all the time
+            ob.fail('C18', 'the loop keeps waiting although %d byte(s) / the end of the stream are available to read (%s; events %s)'
+                    % (sc.remaining(), rec.budget, names[:8]), sig='C18: loop waits although data is available')
+            return cls, ob
         raise EngineLimit('loop budget hit in receive harness: %s' % rec.budget)
     evs = rec.events
     msg_idx = [i for i, e in enumerate(evs) if e.name in MSG_EVENTS]
